@@ -33,9 +33,29 @@ def fields (s : Bytes) : List Bytes :=
     else (acc.1, acc.2 ++ [c])) ([], [])
   if r.2 = [] then r.1 else r.1 ++ [r.2]
 
-/-- `strings.TrimSpace` (ASCII) -/
+/-- `unicode.IsSpace` -/
+def isSpaceRune (r : Nat) : Bool :=
+  r == 0x20 || (0x09 ≤ r && r ≤ 0x0d) || r == 0x85 || r == 0xA0 || r == 0x1680 || (0x2000 ≤ r && r ≤ 0x200a) ||
+  r == 0x2028 || r == 0x2029 || r == 0x202f || r == 0x205f || r == 0x3000
+
+/-- the runes of `s` with their encodings as they stand in `s` (invalid bytes: one byte each) -/
+def runeChunks (s : Bytes) : List (Nat × Bytes) :=
+  go s s.length
+where
+  go : Bytes → Nat → List (Nat × Bytes)
+  | [], _ => []
+  | _, 0 => []
+  | c :: t, fuel+1 =>
+    let d := Utf8.decode (c :: t)
+    -- an invalid byte decodes to U+FFFD with width 1 and is not a space
+    (d.1, (c :: t).take d.2) :: go ((c :: t).drop d.2) fuel
+
+/-- `strings.TrimSpace` -/
 def trimSpace (s : Bytes) : Bytes :=
-  ((s.dropWhile isSpaceByte).reverse.dropWhile isSpaceByte).reverse
+  let cs := runeChunks s
+  let isSp := fun (rc : Nat × Bytes) => isSpaceRune rc.1
+  let cs := ((cs.dropWhile isSp).reverse.dropWhile isSp).reverse
+  cs.flatMap (·.2)
 
 /-! ### escaping filters (C17) -/
 
@@ -79,6 +99,10 @@ where
       b!"\\u000A" ++ go (t.drop 1) fuel
     else if (0x61 ≤ c && c ≤ 0x7a) || (0x41 ≤ c && c ≤ 0x5a) || c == 0x20 || c == 0x2f then
       c :: go t fuel
+    else if d.1 > 0xFFFF then
+      -- UTF-16 surrogate pair
+      let v := d.1 - 0x10000
+      b!"\\u" ++ hex4 (0xD800 + v / 0x400) ++ b!"\\u" ++ hex4 (0xDC00 + v % 0x400) ++ go ((c :: t).drop d.2) fuel
     else b!"\\u" ++ hex4 d.1 ++ go ((c :: t).drop d.2) fuel
 
 def queryUnreserved (c : UInt8) : Bool :=
